@@ -771,3 +771,69 @@ def guarded_by_variant(fn, bi, enum_suffix, variant, only=True):
         if ok and saw_true:
             return True
     return False
+
+
+# ---------------------------------------------------------------------------
+# forward uses
+
+def _operands_of_rv(rv):
+    k = rv["k"]
+    if k in ("use", "cast", "repeat"):
+        return [rv["o"]]
+    if k in ("ref", "rawptr", "discr"):
+        return [{"cp": rv["p"]}]
+    if k == "binop":
+        return [rv["a"], rv["b"]]
+    if k == "unop":
+        return [rv["a"]]
+    if k == "agg":
+        return list(rv["ops"])
+    return []
+
+
+def forward_uses(fn, local, _seen=None):
+    """terminal consumers of the value in `local`, following copies / refs / casts:
+       ('call', bi, term, argidx) | ('agg', bi, stmt, opidx) | ('binop', bi, stmt) | ('ret',) | ('field', bi, stmt)"""
+    if _seen is None:
+        _seen = set()
+    if local in _seen:
+        return []
+    _seen.add(local)
+    out = []
+    if local == 0:
+        out.append(("ret",))
+    for bi, blk in enumerate(fn.blocks):
+        for s in blk["st"]:
+            if s["k"] != "assign":
+                continue
+            rv = s["rv"]
+            ops = _operands_of_rv(rv)
+            for oi, o in enumerate(ops):
+                if is_const(o) or o is None:
+                    continue
+                p = op_place(o)
+                if p is None or p["l"] != local:
+                    continue
+                k = rv["k"]
+                if s["dst"].get("p"):
+                    out.append(("field", bi, s))
+                elif k in ("use", "cast", "ref", "rawptr", "repeat"):
+                    out.extend(forward_uses(fn, s["dst"]["l"], _seen))
+                elif k == "agg":
+                    out.append(("agg", bi, s, oi))
+                    out.extend(forward_uses(fn, s["dst"]["l"], _seen))
+                elif k in ("binop", "unop"):
+                    out.append(("binop", bi, s))
+                elif k == "discr":
+                    pass
+        t = blk["term"]
+        if t["k"] == "call":
+            for ai, a in enumerate(t["args"]):
+                if is_const(a):
+                    continue
+                p = op_place(a)
+                if p and p["l"] == local:
+                    out.append(("call", bi, t, ai))
+        elif t["k"] == "switch":
+            pass
+    return out
